@@ -547,7 +547,11 @@ impl Pool for PoolImpl {
     async fn recover_from_standstill(&self) {
         let slot = self.finalized_slot();
         let mut certs = self.get_final_certs(slot);
-        assert!(!certs.is_empty(), "no final cert");
+        // NOTE: Genesis is finalized by definition, there are no certificates for it.
+        // Recovery has to work in that state as well (e.g. a node that got isolated early).
+        if certs.is_empty() && !slot.is_genesis() {
+            warn!("no final cert found for finalized slot {slot}");
+        }
         certs.extend(self.get_certs(slot.next()..));
         let votes = self.get_own_votes(slot.next()..);
 
